@@ -269,10 +269,12 @@ def angle_case(rng):
                for _ in range(n)]
     dims = units_ = None
     if rng.random() < 0.4:
-        dims = rng.sample(["a", "b", "c", "z", "x", "n", "e", "q", "V", "V"], nd)
-        while len(set(dims)) < nd:
-            dims = rng.sample(["a", "b", "c", "z", "x", "n", "e", "q", "V"], nd)
-        units_ = rng.choice([None, ["nm", "um", "s"][:nd]])
+        dims = rng.sample(["a", "b", "c", "z", "x", "n", "e", "q", "V", "X", "Y", "N", "L"], nd)
+        if rng.random() < 0.3:
+            dims[rng.randrange(nd)] = "V" if "V" not in dims else dims[0]
+            if len(set(dims)) < nd:
+                dims = ["V", "n", "X"][:nd]
+        units_ = rng.choice([None, rng.sample(["nm", "um", "s", "m", "rad", "T"], nd)])
     return dict(kind="angle", sh=sh, cell=[g.qs(x) for x in cell], p1=[g.qs(x) for x in p1], ax=ax,
                 units=rng.choice(["rad", "rad", "deg"]), vals=[g.qs(x) for x in np.array(arr).reshape(-1).tolist()],
                 valid=None, tex=tex, dims=dims, units_=units_)
